@@ -149,6 +149,7 @@ func (x *Exec) applyContract(st *State, i *ssa.Call, fi *FuncInfo, fs *FuncSpec,
 		st.alloc = na
 	}
 	x.havocHeaps(st, old, eff)
+	x.wfObjects(st, eff)
 	for a := range eff.cells {
 		ty := tyFromGo(a.Type().(*types.Pointer).Elem())
 		v, facts := x.freshValue(ty, a.Comment, st)
